@@ -565,3 +565,52 @@ case("c08-refactor-retry-loop-with-else", "C08", "refactor", [("src/stabilize/qu
         else:
             return None
 """)], None, patch="seeded/c08-2/patch.diff")
+
+# ------------------------------------------------------------------ C05
+case("c05-starttask-skip-dead-on-arrival", "C05", "mutant", [(H + "start_task.py", """                    self.set_task_status(task_model, WorkflowStatus.RUNNING)
+                    task_model.start_time = self.current_time_millis()
+                    with self.repository.transaction(self.queue) as txn:""", """                    self.set_task_status(task_model, WorkflowStatus.SKIPPED)
+                    with self.repository.transaction(self.queue) as txn:""")], "C05.R3")
+case("c05-completestage-no-continuation-branch", "C05", "mutant", [(H + "complete_stage/handler.py", """                        elif not downstream_stages:
+                            # Terminal stage - complete workflow
+                            txn.push_message(
+                                CompleteWorkflow(
+                                    execution_type=execution.type.value,
+                                    execution_id=execution.id,
+                                )
+                            )""", """                        elif not downstream_stages:
+                            # Terminal stage - complete workflow
+                            pass""")], "C05.R2")
+case("c05-skipstage-no-downstream-trigger", "C05", "mutant", [(H + "skip_stage.py", """                if downstream_stages:
+                    # Start all downstream stages
+                    for downstream in downstream_stages:""", """                if downstream_stages and phase is None:
+                    # Start all downstream stages
+                    for downstream in downstream_stages:""")], "C05.R")
+case("c05-succeeded-with-canceled-stage", "C05", "mutant", [(H + "complete_workflow.py", """        if all(s in CONTINUABLE_STATUSES for s in statuses):
+            return WorkflowStatus.SUCCEEDED""", """        if all(s in CONTINUABLE_STATUSES or s == WorkflowStatus.CANCELED for s in statuses):
+            return WorkflowStatus.SUCCEEDED""")], "C05.R1")
+case("c05-terminal-check-after-canceled", "C05", "mutant", [(H + "complete_workflow.py", """        if WorkflowStatus.TERMINAL in statuses:
+            return WorkflowStatus.TERMINAL
+
+        # Any CANCELED -> CANCELED
+        if WorkflowStatus.CANCELED in statuses:
+            return WorkflowStatus.CANCELED
+""", """        if WorkflowStatus.CANCELED in statuses:
+            return WorkflowStatus.CANCELED
+
+        # Any CANCELED -> CANCELED
+        if WorkflowStatus.TERMINAL in statuses:
+            return WorkflowStatus.TERMINAL
+""")], "C05.R1")
+case("c05-unbounded-completeworkflow-requeue", "C05", "mutant", [(H + "complete_workflow.py", "        if retry_count >= max_retries:", "        if False and retry_count >= max_retries:")], "C05.R1")
+case("c05-running-stages-not-cancelled", "C05", "mutant", [(H + "complete_workflow.py", "            if status != WorkflowStatus.SUCCEEDED:\n                running_stages", "            if status == WorkflowStatus.TERMINAL:\n                running_stages")], "C05.R4")
+case("c05-signal-resume-without-continuation", "C05", "mutant", [(H + "signal_stage.py", """                    else:
+                        # No suspended task found - re-start the stage
+                        txn.push_message(
+                            StartStage(
+                                execution_type=message.execution_type,
+                                execution_id=message.execution_id,
+                                stage_id=message.stage_id,
+                            )
+                        )""", """                    else:
+                        pass""")], "C05.R5")
